@@ -93,7 +93,7 @@ def relGetResolvedWith (guard : Bool → Bool) (enc : Enc) (b : SecBuf) (symtab 
   match relGet enc b index with
   | .error f => .error f
   | .ok r =>
-    let e : Reloc.Entry := r.getD { offset := 0, symbol := 0, type := 0, addend := 0 }
+    let e : Reloc.Entry := r.getD { offset := 0, symbol := tq_reloc_symbol_init, type := 0, addend := 0 }
     match symtab with
     | none =>
       if guard true then pure { ret := false, offset := e.offset, type := e.type, addend := e.addend }
@@ -101,12 +101,13 @@ def relGetResolvedWith (guard : Bool → Bool) (enc : Enc) (b : SecBuf) (symtab 
     | some t =>
       if r.isNone then pure { ret := false }       -- `ret && …` : get_symbol is not called
       else
-        match t.getSymbol (e.symbol.setWidth 64) [] {} with
+        match t.getSymbol (tq_reloc_sym_index e.symbol) [] {} with
         | .error f => .error f
         | .ok g =>
-          pure { ret := g.1, offset := e.offset, symValue := g.2.2.value, symName := g.2.1, type := e.type,
+          let ret := tq_reloc_ret_and true g.1      -- `ret = ret && symbols.get_symbol( … )`, `ret` was true
+          pure { ret := ret, offset := e.offset, symValue := g.2.2.value, symName := g.2.1, type := e.type,
                  addend := e.addend,
-                 calcValue := if g.1 then relCalc e.type g.2.2.value e.addend e.offset else 0 }
+                 calcValue := if tq_reloc_calc_gate ret then relCalc e.type g.2.2.value e.addend e.offset else 0 }
 
 def relGetResolved := relGetResolvedWith tq_reloc_nosymtab
 
@@ -147,13 +148,15 @@ def swapLoop (enc : Enc) (first second : BitVec 64) : Nat → SecBuf → BitVec 
       if !(reloc_swap_loop_cond i n) then pure b else
       match swapBody enc first second b i cur with
       | .error f => .error f
-      | .ok (b1, cur1) => swapLoop enc first second fuel b1 (i + 1) cur1
+      | .ok (b1, cur1) => swapLoop enc first second fuel b1 (reloc_swap_i_incr i) cur1
 
 /-- `swap_symbols(first, second)` : nothing to do without data (fixes/20); with data the entry count
     is at most the section size, and the fuel suffices whenever that is below 2^32 -/
 def swapSymbols (enc : Enc) (b : SecBuf) (first second : BitVec 64) : M SecBuf :=
   if tq_swap_nodata (secData b).isNone then pure b else
-  swapLoop enc first second ((Reloc.entriesNumV b).toNat + 1) b 0 { offset := 0, symbol := 0, type := 0, addend := 0 }
+  swapLoop enc first second ((Reloc.entriesNumV b).toNat + 1) b reloc_swap_i_init
+    { offset := reloc_swap_init_offset, symbol := reloc_swap_init_symbol, type := reloc_swap_init_rtype,
+      addend := reloc_swap_init_addend }
 
 /-- the callback `[&](first, second){ for (r : rels) relocation_section_accessor(elf, r).swap_symbols(first, second); }` -/
 def swapAll (enc : Enc) : List SecBuf → BitVec 64 → BitVec 64 → M (List SecBuf)
@@ -169,7 +172,7 @@ def swapAll (enc : Enc) : List SecBuf → BitVec 64 → BitVec 64 → M (List Se
 /-- `arrange_local_symbols(func)` : without symbol data nothing is arranged (fixes/14) -/
 def arrange {σ : Type} (cb : σ → BitVec 64 → BitVec 64 → M σ) (s : SecBuf) (st : σ) :
     M (SecBuf × σ × BitVec 64) :=
-  if tq_arrange_nodata (secData s).isNone then pure (s, st, 0) else Arrange.arrange cb s st
+  if tq_arrange_nodata (secData s).isNone then pure (s, st, tq_arrange_nodata_ret) else Arrange.arrange cb s st
 
 /-! ### symbol lookup by name: the hash walks after fixes/11, 12, 13 -/
 
@@ -214,50 +217,50 @@ def hashLookup (t : SymTab) (h : SecBuf) (name : Bytes) (a : Attrs) : M (Bool ×
           | .ok st => pure (st.1 == name, st.2)
 
 /-- the `while (true)` loop of `gnu_hash_lookup` with the end-of-section test of fixes/13 -/
-def gnuLoop (t : SymTab) (data : Option Bytes) (name : Bytes) (hash symoffset : BitVec 32)
+def gnuLoopT (is32 : Bool) (t : SymTab) (data : Option Bytes) (name : Bytes) (hash symoffset : BitVec 32)
     (chainsBase : Nat) (nchains : BitVec 64) : Nat → BitVec 32 → BitVec 32 → Bytes → Attrs → M (Bool × Attrs)
   | 0, _, _, _, _ => throw (.fuel "gnu_hash_lookup")
   | k + 1, ci, ch, sn, a =>
-    if !(if t.c32 then gnu32_loop_forever else gnu64_loop_forever) then pure (false, a) else
-    let hm := if t.c32 then gnu32_hash_match ch hash else gnu64_hash_match ch hash
-    match (if hm then t.getSymbol (if t.c32 then gnu32_sym_index ci symoffset else gnu64_sym_index ci symoffset) sn a
+    if !(if is32 then gnu32_loop_forever else gnu64_loop_forever) then pure (false, a) else
+    let hm := if is32 then gnu32_hash_match ch hash else gnu64_hash_match ch hash
+    match (if hm then t.getSymbol (if is32 then gnu32_sym_index ci symoffset else gnu64_sym_index ci symoffset) sn a
            else pure (false, sn, a)) with
     | .error f => .error f
     | .ok r =>
-      if (if t.c32 then gnu32_name_match_gate ch hash r.1 (name == r.2.1)
+      if (if is32 then gnu32_name_match_gate ch hash r.1 (name == r.2.1)
           else gnu64_name_match_gate ch hash r.1 (name == r.2.1)) then pure (true, r.2.2) else
-      if (if t.c32 then gnu32_chain_end ch else gnu64_chain_end ch) then pure (false, r.2.2) else
-      let ci' := if t.c32 then gnu32_chain_next ci else gnu64_chain_next ci
-      if (if t.c32 then tq_gnu32_next_oob ci' nchains else tq_gnu64_next_oob ci' nchains) then pure (false, r.2.2) else
+      if (if is32 then gnu32_chain_end ch else gnu64_chain_end ch) then pure (false, r.2.2) else
+      let ci' := if is32 then gnu32_chain_next ci else gnu64_chain_next ci
+      if (if is32 then tq_gnu32_next_oob ci' nchains else tq_gnu64_next_oob ci' nchains) then pure (false, r.2.2) else
       match SymTab.rd32 "gnu_hash_lookup/chain" t.cfg.enc data
-          (chainsBase + (if t.c32 then gnu32_chain_elem_off_walk ci' else gnu64_chain_elem_off_walk ci').toNat) with
+          (chainsBase + (if is32 then gnu32_chain_elem_off_walk ci' else gnu64_chain_elem_off_walk ci').toNat) with
       | .error f => .error f
-      | .ok ch' => gnuLoop t data name hash symoffset chainsBase nchains k ci' ch' r.2.1 r.2.2
+      | .ok ch' => gnuLoopT is32 t data name hash symoffset chainsBase nchains k ci' ch' r.2.1 r.2.2
 
 /-- `gnu_hash_lookup<T>` after fixes/13: header guard; zero counts, shift and table-fits guard; the chain
     may neither start nor continue behind the section (`nchains` entries fit) -/
-def gnuLookup (t : SymTab) (h : SecBuf) (name : Bytes) (a : Attrs) : M (Bool × Attrs) :=
+def gnuLookupT (is32 : Bool) (t : SymTab) (h : SecBuf) (name : Bytes) (a : Attrs) : M (Bool × Attrs) :=
   let data := secData h
   let e := t.cfg.enc
-  if (if t.c32 then tq_gnu32_hdr_bad data.isNone h.size else tq_gnu64_hdr_bad data.isNone h.size) then pure (false, a) else
-  match SymTab.rd32 "gnu_hash_lookup/nbuckets" e data (if t.c32 then gnu32_nbuckets_off else gnu64_nbuckets_off).toNat with
+  if (if is32 then tq_gnu32_hdr_bad data.isNone h.size else tq_gnu64_hdr_bad data.isNone h.size) then pure (false, a) else
+  match SymTab.rd32 "gnu_hash_lookup/nbuckets" e data (if is32 then gnu32_nbuckets_off else gnu64_nbuckets_off).toNat with
   | .error f => .error f
   | .ok nbuckets =>
-  match SymTab.rd32 "gnu_hash_lookup/symoffset" e data (if t.c32 then gnu32_symoffset_off else gnu64_symoffset_off).toNat with
+  match SymTab.rd32 "gnu_hash_lookup/symoffset" e data (if is32 then gnu32_symoffset_off else gnu64_symoffset_off).toNat with
   | .error f => .error f
   | .ok symoffset =>
-  match SymTab.rd32 "gnu_hash_lookup/bloom_size" e data (if t.c32 then gnu32_bloom_size_off else gnu64_bloom_size_off).toNat with
+  match SymTab.rd32 "gnu_hash_lookup/bloom_size" e data (if is32 then gnu32_bloom_size_off else gnu64_bloom_size_off).toNat with
   | .error f => .error f
   | .ok bloomSize =>
-  match SymTab.rd32 "gnu_hash_lookup/bloom_shift" e data (if t.c32 then gnu32_bloom_shift_off else gnu64_bloom_shift_off).toNat with
+  match SymTab.rd32 "gnu_hash_lookup/bloom_shift" e data (if is32 then gnu32_bloom_shift_off else gnu64_bloom_shift_off).toNat with
   | .error f => .error f
   | .ok bloomShift =>
-    if (if t.c32 then tq_gnu32_fit_bad nbuckets bloomSize bloomShift h.size
+    if (if is32 then tq_gnu32_fit_bad nbuckets bloomSize bloomShift h.size
         else tq_gnu64_fit_bad nbuckets bloomSize bloomShift h.size) then pure (false, a) else
-    let nchains := if t.c32 then tq_gnu32_nchains h.size bloomSize nbuckets else tq_gnu64_nchains h.size bloomSize nbuckets
+    let nchains := if is32 then tq_gnu32_nchains h.size bloomSize nbuckets else tq_gnu64_nchains h.size bloomSize nbuckets
     let hash := elf_gnu_hash (SymTab.cName name)
-    let bloomBase := (if t.c32 then gnu32_bloom_off else gnu64_bloom_off).toNat
-    match (if t.c32 then
+    let bloomBase := (if is32 then gnu32_bloom_off else gnu64_bloom_off).toNat
+    match (if is32 then
              match SymTab.rd32 "gnu_hash_lookup/bloom" e data
                  (bloomBase + (gnu32_bloom_elem_off (gnu32_bloom_index hash bloomSize)).toNat) with
              | .error f => .error f
@@ -270,21 +273,29 @@ def gnuLookup (t : SymTab) (h : SecBuf) (name : Bytes) (a : Attrs) : M (Bool × 
     | .error f => .error f
     | .ok pass =>
       if !pass then pure (false, a) else
-      let bucket := if t.c32 then gnu32_bucket hash nbuckets else gnu64_bucket hash nbuckets
-      let bucketsBase := bloomBase + (if t.c32 then gnu32_buckets_off bloomSize else gnu64_buckets_off bloomSize).toNat
-      let chainsBase := bucketsBase + (if t.c32 then gnu32_chains_off nbuckets else gnu64_chains_off nbuckets).toNat
+      let bucket := if is32 then gnu32_bucket hash nbuckets else gnu64_bucket hash nbuckets
+      let bucketsBase := bloomBase + (if is32 then gnu32_buckets_off bloomSize else gnu64_buckets_off bloomSize).toNat
+      let chainsBase := bucketsBase + (if is32 then gnu32_chains_off nbuckets else gnu64_chains_off nbuckets).toNat
       match SymTab.rd32 "gnu_hash_lookup/bucket" e data
-          (bucketsBase + (if t.c32 then gnu32_bucket_elem_off bucket else gnu64_bucket_elem_off bucket).toNat) with
+          (bucketsBase + (if is32 then gnu32_bucket_elem_off bucket else gnu64_bucket_elem_off bucket).toNat) with
       | .error f => .error f
       | .ok bv =>
-        if (if t.c32 then gnu32_bucket_ok bv symoffset else gnu64_bucket_ok bv symoffset) then
-          let ci := if t.c32 then gnu32_chain_start bv symoffset else gnu64_chain_start bv symoffset
-          if (if t.c32 then tq_gnu32_start_oob ci nchains else tq_gnu64_start_oob ci nchains) then pure (false, a) else
+        if (if is32 then gnu32_bucket_ok bv symoffset else gnu64_bucket_ok bv symoffset) then
+          let ci := if is32 then gnu32_chain_start bv symoffset else gnu64_chain_start bv symoffset
+          if (if is32 then tq_gnu32_start_oob ci nchains else tq_gnu64_start_oob ci nchains) then pure (false, a) else
           match SymTab.rd32 "gnu_hash_lookup/chain" e data
-              (chainsBase + (if t.c32 then gnu32_chain_elem_off ci else gnu64_chain_elem_off ci).toNat) with
+              (chainsBase + (if is32 then gnu32_chain_elem_off ci else gnu64_chain_elem_off ci).toNat) with
           | .error f => .error f
-          | .ok ch => gnuLoop t data name hash symoffset chainsBase nchains (nchains.toNat + 1) ci ch [] a
+          | .ok ch => gnuLoopT is32 t data name hash symoffset chainsBase nchains (nchains.toNat + 1) ci ch [] a
         else pure (false, a)
+
+/-- the walk / `gnu_hash_lookup<T>` for the `T` of the file's class -/
+def gnuLoop (t : SymTab) (data : Option Bytes) (name : Bytes) (hash symoffset : BitVec 32)
+    (chainsBase : Nat) (nchains : BitVec 64) (fuel : Nat) (ci ch : BitVec 32) (sn : Bytes) (a : Attrs) : M (Bool × Attrs) :=
+  gnuLoopT t.c32 t data name hash symoffset chainsBase nchains fuel ci ch sn a
+
+def gnuLookup (t : SymTab) (h : SecBuf) (name : Bytes) (a : Attrs) : M (Bool × Attrs) :=
+  gnuLookupT t.c32 t h name a
 
 /-- the hash phase of `get_symbol(name, …)` -/
 def hashPhase (t : SymTab) (name : Bytes) (a : Attrs) : M (Bool × Attrs) :=
@@ -295,7 +306,7 @@ def hashPhase (t : SymTab) (name : Bytes) (a : Attrs) : M (Bool × Attrs) :=
     | .error f => .error f
     | .ok r1 =>
       if tq_sym_hash_is_gnu h.stype then
-        gnuLookup t h name r1.2
+        gnuLookupT (tq_sym_gnu_is32 (SymTab.clsByte t.cfg.cls)) t h name r1.2
       else pure r1
 
 /-- `get_symbol(name, value, size, bind, type, section_index, other)` -/
@@ -306,7 +317,7 @@ def getByName (t : SymTab) (name : Bytes) (a : Attrs) : M (Bool × Attrs) :=
     if tq_sym_linear_needed r.1 then
       match t.symbolsNum with
       | .error f => .error f
-      | .ok n => SymTab.linearGo t name n.toNat 0 r.2
+      | .ok n => SymTab.linearGo t name n.toNat sym_byname_i_init r.2
     else pure r
 
 /-- `get_symbol(value, name, size, bind, type, section_index, other)` : unchanged by the fixes -/
